@@ -61,7 +61,7 @@ func PowReal(d Number, p float64) Number {
 	const tol = 1e-15
 
 	r := d.Real
-	if math.Abs(r) < tol {
+	if r == 0 {
 		if r >= 0 {
 			r = tol
 		}
